@@ -146,40 +146,60 @@ def genNums : Exp.Nums :=
     missingEndExpect := AslModel.Generated.ErrPos.errMissingENDEXPECT
     missingExpect := AslModel.Generated.ErrPos.errMissingEXPECT }
 
-/-- run the events one by one (same as `Exp.runPass`) and tag every message with the index of the event that
+def parseHide (s : String) : Option Exp.Hide :=
+  match s.toList with
+  | ['h', w, g] => some { suppWarns := w == '1', noCode := g == '1', unknownInstruction := AslModel.Generated.ErrPos.errUnknownInstruction }
+  | _ => none
+
+def noHide : Exp.Hide := { suppWarns := false, noCode := false, unknownInstruction := AslModel.Generated.ErrPos.errUnknownInstruction }
+
+/-- run the events one by one (same as `Exp.runPassH`) and tag every message with the index of the event that
 wrote it (`len` = end of pass) -/
-def runTagged (evs : List Exp.Ev) : List String := Id.run do
+def runTagged (h : Exp.Hide) (evs : List Exp.Ev) : List String := Id.run do
   let mut s := Exp.init
   let mut out : List String := []
   let mut i := 0
   for e in evs do
-    let r := Exp.step genNums s e
+    let r := Exp.stepH h genNums s e
     out := out ++ r.2.map (fun m => showMsg m ++ "@" ++ toString i)
     s := r.1
     i := i + 1
-  out := out ++ (Exp.passExit genNums s).map (fun m => showMsg m ++ "@" ++ toString i)
+  out := out ++ (Exp.passExitH h genNums s).map (fun m => showMsg m ++ "@" ++ toString i)
   return out
 
-def handleX (line : String) : String :=
-  match words line with
-  | real :: evs =>
-    match evs.mapM parseEv with
-    | some evl =>
-      let out := runTagged evl
-      let plain := (Exp.runPass genNums evl).map showMsg
-      let consistent := plain == out.map (fun t => (t.splitOn "@").headD "")
-      let realL := if real == "-" then [] else real.splitOn ","
-      s!"model={if out == realL && consistent then "eq" else "ne"} out={if out.isEmpty then "-" else ",".intercalate out}"
-    | _ => "bad-request"
+def handleXH (h : Exp.Hide) (real : String) (evs : List String) : String :=
+  match evs.mapM parseEv with
+  | some evl =>
+    let out := runTagged h evl
+    let plain := (Exp.runPassH h genNums evl).map showMsg
+    -- `C20_expect_hiding_options`, executed: the options only filter the channel of the run without options
+    let filt := ((Exp.runPass genNums evl).filter (fun m => !h.hides (m.num genNums))).map showMsg
+    let consistent := plain == out.map (fun t => (t.splitOn "@").headD "") && plain == filt
+    let realL := if real == "-" then [] else real.splitOn ","
+    s!"model={if out == realL && consistent then "eq" else "ne"} out={if out.isEmpty then "-" else ",".intercalate out}"
   | _ => "bad-request"
 
-def handleB (line : String) : String :=
+/-- `[h<w><g>] <real> <event>...` -/
+def handleX (line : String) : String :=
   match words line with
+  | first :: rest =>
+    match parseHide first, rest with
+    | some h, real :: evs => handleXH h real evs
+    | _, _ => handleXH noHide first rest
+  | _ => "bad-request"
+
+/-- `<A> <O> <R> <M> [h<w><g>]`: reported = (occurred ∖ announced) without the hidden numbers, missing = announced ∖ occurred -/
+def handleB (line : String) : String :=
+  let ws := words line
+  let (ws, h) := match ws with
+    | [a, o, r, m, hs] => ([a, o, r, m], (parseHide hs).getD noHide)
+    | _ => (ws, noHide)
+  match ws with
   | [a, o, r, m] =>
     match parseNums a, parseNums o, parseNums r, parseNums m with
     | some A, some O, some R, some M =>
       let dom := (A ++ O ++ R ++ M).eraseDups
-      let ok := dom.all fun n => R.count n == reportedCount A O n && M.count n == missingCount A O n
+      let ok := dom.all fun n => R.count n == (if h.hides n then 0 else reportedCount A O n) && M.count n == missingCount A O n
       -- the reported ones keep the order in which they occurred
       let sub := R.isSublist O
       s!"spec={if ok && sub then "ok" else "bad"}"
